@@ -44,6 +44,13 @@ type cliCase struct {
 	AtRanks []string `json:",omitempty"` // one obiannotate --with-taxon-at-rank run (empty: none)
 	LCASlot string   // one obiannotate --add-lca-in run ("": none)
 	MaxCPU  int      // 0: default
+	// Plan: the dump files declare taxids several times / in any order (plan_test.go); nil: the plain dump of Dump.
+	Plan *dumpPlan `json:",omitempty"`
+	// Lineage: one obiannotate --taxonomic-path --taxonomic-rank --scientific-name run on the records whose taxid is in the taxonomy.
+	Lineage bool `json:",omitempty"`
+	// RefIdx: one obirefidx run on the records, all given the same nucleotides: the index of every record then
+	// holds one entry, for 0 differences, the LCA of the taxa of all the records.
+	RefIdx bool `json:",omitempty"`
 }
 
 func init() { evid.Reg("cli", checkCLI) }
@@ -188,11 +195,16 @@ func checkCLI(c cliCase) error {
 	if err := t.Validate(); err != nil {
 		return fmt.Errorf("harness: invalid case: %v", err)
 	}
-	dir, err := writeDump(t, c.Dump)
+	dir, err := writeAnyDump(t, c.Dump, c.Plan)
 	if err != nil {
 		return fmt.Errorf("harness: %v", err)
 	}
 	defer os.RemoveAll(dir)
+	if c.Lineage || c.RefIdx {
+		if err := checkLineageAndRefIdx(&c, dir); err != nil {
+			return err
+		}
+	}
 	in := filepath.Join(dir, "in.fasta")
 	inLCA := filepath.Join(dir, "lca.fasta")
 	if err := os.WriteFile(in, []byte(fastaOf(c.Seqs, false, t)), 0o644); err != nil {
@@ -463,6 +475,9 @@ func genCLICase(rt *rapid.T) (cliCase, gen.TreeInfo) {
 	shape := rapid.SampledFrom(gen.TreeShapes).Draw(rt, "shape")
 	tr, info := gen.Tree(rt, "tree", n, shape, rapid.IntRange(0, min(20, n/3+2)).Draw(rt, "n_alias"), 3)
 	c := cliCase{Tree: tr}
+	if rapid.IntRange(0, 2).Draw(rt, "with_plan") == 0 { // before anything resolves an id: the plan may add old ids of the same taxon
+		c.Plan, _ = genPlan(rt, &c.Tree, info.Unknown)
+	}
 	c.Dump.FullColumns = rapid.Bool().Draw(rt, "full_columns")
 	c.Dump.Synonyms = rapid.Bool().Draw(rt, "synonyms")
 	if rapid.Bool().Draw(rt, "reversed") {
@@ -559,13 +574,15 @@ func genCLICase(rt *rapid.T) (cliCase, gen.TreeInfo) {
 		}
 	}
 	c.LCASlot = rapid.SampledFrom([]string{"lca", "best", "consensus_taxid", "x"}).Draw(rt, "lca_slot")
+	c.Lineage = rapid.Bool().Draw(rt, "lineage")
+	c.RefIdx = rapid.IntRange(0, 2).Draw(rt, "refidx") == 0
 	return c, info
 }
 
 // cliCounters feeds the evidence: one evaluation per command run.
 func cliCounters(c *cliCase, info gen.TreeInfo) {
 	t := &c.Tree
-	key := evid.Hash(fmt.Sprint(t.Parent), fmt.Sprint(t.Taxid), fmt.Sprint(t.Rank), fmt.Sprint(t.Alias), fmt.Sprint(c.Seqs))
+	key := evid.Hash(fmt.Sprint(t.Parent), fmt.Sprint(t.Taxid), fmt.Sprint(t.Rank), fmt.Sprint(t.Alias), fmt.Sprint(c.Seqs), c.Plan.key())
 	var sample any
 	if t.N() <= 8 && len(c.Seqs) <= 6 {
 		sample = c
@@ -628,6 +645,22 @@ func cliCounters(c *cliCase, info gen.TreeInfo) {
 		}
 		evid.Eval("cli", evid.Hash(key, "lca", c.LCASlot), multi > 0, sample, "cli:annotate_lca")
 	}
+	known := 0
+	for _, s := range c.Seqs {
+		if _, _, ok := t.Resolve(s.Taxid); ok {
+			known++
+		}
+	}
+	pcl := planClasses(t, c.Plan)
+	if c.Lineage {
+		evid.Eval("cli", evid.Hash(key, "lineage", c.Plan.key()), known > 0 && t.N() > 1, sample, append(pcl, "cli:annotate_path_rank_name")...)
+	}
+	if c.RefIdx {
+		evid.Eval("cli", evid.Hash(key, "refidx", c.Plan.key()), known > 1, sample, append(pcl, "cli:obirefidx_identical_sequences")...)
+	}
+	if c.Plan != nil {
+		evid.Class("cli:dump_with_plan", 1)
+	}
 	nu, na := 0, 0
 	for _, s := range c.Seqs {
 		if _, via, ok := t.Resolve(s.Taxid); !ok {
@@ -649,8 +682,8 @@ func isAlias(t *ref.Tree, id int) bool {
 }
 
 func TestPropCLI(t *testing.T) {
-	if !run.Have("obigrep") || !run.Have("obiannotate") {
-		t.Fatalf("the driver did not build obigrep/obiannotate into %s", os.Getenv("VERIF_BIN"))
+	if !run.Have("obigrep") || !run.Have("obiannotate") || !run.Have("obirefidx") {
+		t.Fatalf("the driver did not build obigrep/obiannotate/obirefidx into %s", os.Getenv("VERIF_BIN"))
 	}
 	rapid.Check(t, func(rt *rapid.T) {
 		c, info := genCLICase(rt)
